@@ -4,6 +4,7 @@ import (
 	"go/ast"
 	"go/token"
 	"go/types"
+	"regexp"
 	"strings"
 )
 
@@ -16,6 +17,8 @@ func init() { generators["C05"] = genC05 }
 // "which blocks enclose this action" and "what comes before what". Everything else
 // (logging, formatting, local arithmetic) is dropped, so harmless rewrites do not change
 // the lists.
+
+var c05ManagedRE = regexp.MustCompile(`^(!?)[A-Za-z_][A-Za-z0-9_]*\.managed$`)
 
 // branch conditions: first matching pattern wins
 var c05Conds = [][2]string{
@@ -69,6 +72,7 @@ var c05Calls = [][2]string{
 }
 
 type c05w struct {
+	fd    *ast.FuncDecl
 	out   []string
 	local map[string]bool // closures bound to a local variable
 }
@@ -90,6 +94,13 @@ func (w *c05w) condName(init ast.Stmt, e ast.Expr) string {
 		}
 	}
 	s += exprStr(e)
+	// the managed flag of whatever the loop variable is called
+	if m := c05ManagedRE.FindStringSubmatch(strings.TrimSpace(exprStr(e))); m != nil {
+		if m[1] == "!" {
+			return "ifUnmanaged"
+		}
+		return "ifManaged"
+	}
 	for _, p := range c05Conds {
 		if strings.Contains(s, p[0]) {
 			return p[1]
@@ -220,7 +231,19 @@ func (w *c05w) stmt(s ast.Stmt) {
 		w.stmt(x.Post)
 		w.emit("}")
 	case *ast.RangeStmt:
-		w.emit("range:" + exprStr(x.X) + "{")
+		over := exprStr(x.X)
+		// a local that holds the result of getAllMatchingCerts, by any name
+		if id, ok := x.X.(*ast.Ident); ok && w.fd != nil {
+			ast.Inspect(w.fd.Body, func(n ast.Node) bool {
+				if a, ok := n.(*ast.AssignStmt); ok && len(a.Lhs) == 1 && len(a.Rhs) == 1 {
+					if l, ok := a.Lhs[0].(*ast.Ident); ok && l.Name == id.Name && strings.Contains(exprStr(a.Rhs[0]), "getAllMatchingCerts(") {
+						over = "matching"
+					}
+				}
+				return true
+			})
+		}
+		w.emit("range:" + over + "{")
 		w.block(x.Body.List)
 		w.emit("}")
 	case *ast.DeferStmt:
@@ -271,7 +294,7 @@ func (p *pkgInfo) c05Markers(key string) []string {
 		miss("function " + key)
 		return []string{"<missing>"}
 	}
-	w := &c05w{local: map[string]bool{}}
+	w := &c05w{local: map[string]bool{}, fd: fd}
 	w.block(fd.Body.List)
 	return w.out
 }
